@@ -8,6 +8,7 @@ VERUS_UNITS = {
     "V-lexer": "v_lexer",
     "V-strslice": "v_strslice",
     "V-bind": "v_bind",
+    "V-emit": "v_emit",
     "V-objdefaults": "v_objdefaults",
     "V-index": "v_small:UNIT_INDEX",
     "V-prec": "v_small:UNIT_PREC",
@@ -15,9 +16,9 @@ VERUS_UNITS = {
 }
 
 PROPERTIES = {
-    "C01": {"verus": ["V-frame", "V-range", "V-index", "V-prec"], "kani": ["K-number"]},
-    "C05": {"verus": ["V-frame"], "kani": ["K-emit", "K-varint"]},
-    "C06": {"verus": ["V-frame", "V-vmproto", "V-range", "V-lexer", "V-cursors", "V-adaptors", "V-strslice", "V-index", "V-debuginfo", "V-bind"], "kani": ["K-number", "K-emit", "K-strslice", "K-varint"]},
+    "C01": {"verus": ["V-frame", "V-range", "V-index", "V-prec", "V-emit"], "kani": ["K-number"]},
+    "C05": {"verus": ["V-frame", "V-emit"], "kani": ["K-emit", "K-varint"]},
+    "C06": {"verus": ["V-frame", "V-vmproto", "V-range", "V-lexer", "V-cursors", "V-adaptors", "V-strslice", "V-index", "V-debuginfo", "V-bind", "V-emit"], "kani": ["K-number", "K-emit", "K-strslice", "K-varint"]},
     "C02": {"verus": ["V-bind"], "kani": []},
     "C04": {"verus": ["V-vmproto"], "kani": []},
     "C07": {"verus": ["V-vmproto"], "kani": []},
